@@ -518,4 +518,188 @@ example : geomVolume Real.pi .box false (⟨1, 1, 1⟩ : V3 ℝ) = some 8 ∧ (m
   · simp only [geomVolume, L, real_ofInt]; norm_num
   · rw [mjEPS_eq]; norm_num
 
+/-! ### the bound / sign / triangle step of `mjCBody::Compile`, the inertial clause, `settotalmass` -/
+
+theorem L0_eq : (L 0 : ℝ) = 0 := by simp only [L, real_ofInt]; push_cast; rfl
+theorem L3_eq : (L 3 : ℝ) = 3 := by simp only [L, real_ofInt]; push_cast; rfl
+
+theorem mx_spec (a c : ℝ) : a ≤ (if a < c then c else a) ∧ c ≤ (if a < c then c else a) := by
+  split_ifs with h
+  · exact ⟨le_of_lt h, le_refl _⟩
+  · exact ⟨le_refl _, not_lt.mp h⟩
+
+/-- **compiled inertias satisfy the triangle inequality**: whatever the inertial values, the bounds and the
+    `balanceinertia` flag, a body that passes the bound / sign / triangle step of `mjCBody::Compile` has non-negative
+    mass and moments, respects `boundmass` / `boundinertia`, and its moments satisfy `A + B ≥ C` in all three
+    arrangements (so the check cannot be reduced to one comparison: the moments of an inertial clause are unordered) -/
+theorem bodyFinish_triangle (bm bi : ℝ) (bal : Bool) (b r : BodyMI ℝ) (h : bodyFinish bm bi bal b = .ok r) :
+    triangle r.inertia ∧ 0 ≤ r.mass ∧ 0 ≤ r.inertia.x ∧ 0 ≤ r.inertia.y ∧ 0 ≤ r.inertia.z ∧
+    bm ≤ r.mass ∧ bi ≤ r.inertia.x ∧ bi ≤ r.inertia.y ∧ bi ≤ r.inertia.z := by
+  unfold bodyFinish at h
+  simp only [L0_eq, L3_eq] at h
+  obtain ⟨_, hm⟩ := mx_spec b.mass bm
+  obtain ⟨_, h0⟩ := mx_spec b.inertia.x bi
+  obtain ⟨_, h1⟩ := mx_spec b.inertia.y bi
+  obtain ⟨_, h2⟩ := mx_spec b.inertia.z bi
+  generalize (if b.mass < bm then bm else b.mass) = m at *
+  generalize (if b.inertia.x < bi then bi else b.inertia.x) = i0 at *
+  generalize (if b.inertia.y < bi then bi else b.inertia.y) = i1 at *
+  generalize (if b.inertia.z < bi then bi else b.inertia.z) = i2 at *
+  split_ifs at h with hneg htri hbal
+  · push Not at hneg
+    obtain ⟨n0, n1, n2, n3⟩ := hneg
+    simp only [Except.ok.injEq] at h
+    subst h
+    simp only [triangle]
+    refine ⟨⟨?_, ?_, ?_⟩, n0, ?_, ?_, ?_, hm, ?_, ?_, ?_⟩ <;> linarith
+  · push Not at hneg htri
+    obtain ⟨n0, n1, n2, n3⟩ := hneg
+    obtain ⟨t0, t1, t2⟩ := htri
+    simp only [Except.ok.injEq] at h
+    subst h
+    exact ⟨⟨t0, t1, t2⟩, n0, n1, n2, n3, hm, h0, h1, h2⟩
+
+/-- the step changes neither the inertial frame nor, without balancing, anything but the clamped values -/
+theorem bodyFinish_frame (bm bi : ℝ) (bal : Bool) (b r : BodyMI ℝ) (h : bodyFinish bm bi bal b = .ok r) :
+    r.ipos = b.ipos ∧ r.iquat = b.iquat := by
+  unfold bodyFinish at h
+  simp only [] at h
+  split_ifs at h <;> simp only [Except.ok.injEq] at h <;> subst h <;> exact ⟨rfl, rfl⟩
+
+/-- no false rejection: physically valid values within the bounds (including the lamina `A + B = C`) pass unchanged -/
+theorem bodyFinish_physical (bm bi : ℝ) (bal : Bool) (b : BodyMI ℝ) (hbm : bm ≤ b.mass) (hm : 0 ≤ b.mass)
+    (bx : bi ≤ b.inertia.x) (by' : bi ≤ b.inertia.y) (bz : bi ≤ b.inertia.z)
+    (nx : 0 ≤ b.inertia.x) (ny : 0 ≤ b.inertia.y) (nz : 0 ≤ b.inertia.z) (ht : triangle b.inertia) :
+    bodyFinish bm bi bal b = .ok b := by
+  obtain ⟨t0, t1, t2⟩ := ht
+  unfold bodyFinish
+  simp only [L0_eq, if_neg (not_lt.mpr hbm), if_neg (not_lt.mpr bx), if_neg (not_lt.mpr by'), if_neg (not_lt.mpr bz)]
+  rw [if_neg (by push Not; exact ⟨hm, nx, ny, nz⟩), if_neg (by push Not; exact ⟨t0, t1, t2⟩)]
+
+/-- non-physical moments (within the bounds, non-negative, violating the triangle inequality in ANY of the three
+    arrangements) are rejected, or replaced by their mean (same trace) under `balanceinertia` -/
+theorem bodyFinish_nonphysical (bm bi : ℝ) (b : BodyMI ℝ) (hbm : bm ≤ b.mass) (hm : 0 ≤ b.mass)
+    (bx : bi ≤ b.inertia.x) (by' : bi ≤ b.inertia.y) (bz : bi ≤ b.inertia.z)
+    (nx : 0 ≤ b.inertia.x) (ny : 0 ≤ b.inertia.y) (nz : 0 ≤ b.inertia.z) (ht : ¬ triangle b.inertia) :
+    (∃ e, bodyFinish bm bi false b = .error e) ∧
+    bodyFinish bm bi true b = .ok ⟨b.mass, b.ipos, b.iquat,
+      ⟨(b.inertia.x + b.inertia.y + b.inertia.z) / 3, (b.inertia.x + b.inertia.y + b.inertia.z) / 3,
+       (b.inertia.x + b.inertia.y + b.inertia.z) / 3⟩⟩ := by
+  have hv : b.inertia.x + b.inertia.y < b.inertia.z ∨ b.inertia.x + b.inertia.z < b.inertia.y ∨
+      b.inertia.y + b.inertia.z < b.inertia.x := by
+    by_contra hc
+    push Not at hc
+    exact ht ⟨hc.1, hc.2.1, hc.2.2⟩
+  unfold bodyFinish
+  simp only [L0_eq, L3_eq, if_neg (not_lt.mpr hbm), if_neg (not_lt.mpr bx), if_neg (not_lt.mpr by'), if_neg (not_lt.mpr bz)]
+  have hn : ¬ (b.mass < 0 ∨ b.inertia.x < 0 ∨ b.inertia.y < 0 ∨ b.inertia.z < 0) := by
+    push Not; exact ⟨hm, nx, ny, nz⟩
+  simp only [if_neg hn, if_pos hv, Bool.false_eq_true, if_false, if_true, and_true]
+  exact ⟨_, rfl⟩
+
+example : ¬ triangle (⟨0.1, 0.1, 1⟩ : V3 ℝ) ∧ ¬ triangle (⟨0.1, 1, 0.1⟩ : V3 ℝ) ∧ ¬ triangle (⟨1, 0.1, 0.1⟩ : V3 ℝ) := by
+  simp only [triangle]; norm_num
+
+/-- **every body compiled by the inertial part of `mjCBody::Compile` satisfies the triangle inequality**: for every
+    inertial clause (diagonal or full inertia, any frame), every geom list, group range, `inertiafromgeom` mode, bounds
+    and `balanceinertia` flag, a successful result has non-negative mass and moments within the bounds, with
+    `A + B ≥ C` in all three arrangements -/
+theorem bodyCompile_triangle (o : MassOpts ℝ) (bpos : V3 ℝ) (bquat : Q ℝ) (sp : BodyInertial ℝ) (geoms : List (GeomIn ℝ))
+    (r : BodyMI ℝ) (h : bodyCompile o bpos bquat sp geoms = .ok r) :
+    triangle r.inertia ∧ 0 ≤ r.mass ∧ 0 ≤ r.inertia.x ∧ 0 ≤ r.inertia.y ∧ 0 ≤ r.inertia.z ∧
+    o.boundmass ≤ r.mass ∧ o.boundinertia ≤ r.inertia.x ∧ o.boundinertia ≤ r.inertia.y ∧ o.boundinertia ≤ r.inertia.z := by
+  unfold bodyCompile at h
+  simp only [] at h
+  repeat' split at h
+  all_goals first
+    | exact bodyFinish_triangle _ _ _ _ _ h
+    | (exfalso; simp at h)
+
+/-- an explicit inertial clause with a defined position, a unit quaternion, diagonal inertia and physically valid
+    values within the bounds is stored exactly as given (unless `inertiafromgeom = true` overrides it) -/
+theorem bodyCompile_explicit (o : MassOpts ℝ) (bpos : V3 ℝ) (bquat : Q ℝ) (sp : BodyInertial ℝ) (geoms : List (GeomIn ℝ))
+    (p : V3 ℝ) (hip : sp.ipos = some p) (hfull : sp.fullinertia = none) (hfg : o.fromgeom ≠ .yes) (hq : nsq sp.iquat = 1)
+    (hbm : o.boundmass ≤ sp.mass) (hm : 0 ≤ sp.mass)
+    (bx : o.boundinertia ≤ sp.inertia.x) (by' : o.boundinertia ≤ sp.inertia.y) (bz : o.boundinertia ≤ sp.inertia.z)
+    (nx : 0 ≤ sp.inertia.x) (ny : 0 ≤ sp.inertia.y) (nz : 0 ≤ sp.inertia.z) (ht : triangle sp.inertia) :
+    bodyCompile o bpos bquat sp geoms = .ok ⟨sp.mass, p, sp.iquat, sp.inertia⟩ := by
+  unfold bodyCompile
+  simp only [hip, hfull, normvec4_unit _ hq, hfg, decide_false, Bool.false_or, Option.isNone_some, Bool.false_and,
+    Bool.false_eq_true, if_false]
+  exact bodyFinish_physical _ _ _ ⟨sp.mass, p, sp.iquat, sp.inertia⟩ hbm hm bx by' bz nx ny nz ht
+
+example : nsq (⟨1, 0, 0, 0⟩ : Q ℝ) = 1 ∧ triangle (⟨0.3, 0.5, 0.6⟩ : V3 ℝ) ∧ triangle (⟨1, 2, 3⟩ : V3 ℝ) := by
+  simp only [nsq, triangle]; norm_num
+
+/-! #### `settotalmass` -/
+
+theorem mjMINVAL_eq : (mjMINVAL : ℝ) = 1 / 10 ^ 15 := by
+  simp only [mjMINVAL, real_ofSci]; norm_num
+theorem mjMINVAL_pos : (0 : ℝ) < mjMINVAL := by rw [mjMINVAL_eq]; positivity
+
+/-- the scale factor of `mj_setTotalmass` -/
+noncomputable def totalmassScale (newmass total : ℝ) : ℝ :=
+  if newmass / (if total ≤ mjMINVAL then mjMINVAL else total) ≤ mjMINVAL then mjMINVAL
+  else newmass / (if total ≤ mjMINVAL then mjMINVAL else total)
+
+theorem totalmassScale_pos (newmass total : ℝ) : 0 < totalmassScale newmass total := by
+  have hq : ∀ q : ℝ, 0 < (if q ≤ mjMINVAL then mjMINVAL else q) := by
+    intro q
+    split_ifs with h
+    · exact mjMINVAL_pos
+    · exact lt_trans mjMINVAL_pos (not_le.mp h)
+  exact hq _
+
+theorem foldl_mass (bs : List (BodyMI ℝ)) (a : ℝ) :
+    bs.foldl (fun s b => s + b.mass) a = a + (bs.map (·.mass)).sum := by
+  induction bs generalizing a with
+  | nil => simp
+  | cons b bs ih => simp only [List.foldl_cons, List.map_cons, List.sum_cons, ih]; ring
+
+/-- `mj_setTotalmass` multiplies every mass and every moment by one positive factor -/
+theorem setTotalmass_eq (newmass : ℝ) (bs : List (BodyMI ℝ)) :
+    setTotalmass newmass bs =
+      bs.map (fun b => ⟨b.mass * totalmassScale newmass (bs.map (·.mass)).sum, b.ipos, b.iquat,
+        ⟨b.inertia.x * totalmassScale newmass (bs.map (·.mass)).sum,
+         b.inertia.y * totalmassScale newmass (bs.map (·.mass)).sum,
+         b.inertia.z * totalmassScale newmass (bs.map (·.mass)).sum⟩⟩) := by
+  unfold setTotalmass totalmassScale
+  simp only [foldl_mass, L0_eq, zero_add]
+
+/-- … hence it keeps the triangle inequality (and the signs) of every body -/
+theorem setTotalmass_triangle (stm : ℝ) (bs : List (BodyMI ℝ))
+    (hb : ∀ b ∈ bs, triangle b.inertia ∧ 0 ≤ b.mass ∧ 0 ≤ b.inertia.x ∧ 0 ≤ b.inertia.y ∧ 0 ≤ b.inertia.z) :
+    ∀ r ∈ applyTotalmass stm bs, triangle r.inertia ∧ 0 ≤ r.mass ∧ 0 ≤ r.inertia.x ∧ 0 ≤ r.inertia.y ∧ 0 ≤ r.inertia.z := by
+  intro r hr
+  unfold applyTotalmass at hr
+  split_ifs at hr with hpos
+  · rw [setTotalmass_eq] at hr
+    obtain ⟨b, hbm, rfl⟩ := List.mem_map.mp hr
+    obtain ⟨⟨t0, t1, t2⟩, m0, i0, i1, i2⟩ := hb b hbm
+    have hs := totalmassScale_pos stm (bs.map (·.mass)).sum
+    generalize totalmassScale stm (bs.map (·.mass)).sum = s at *
+    simp only [triangle]
+    refine ⟨⟨?_, ?_, ?_⟩, ?_, ?_, ?_, ?_⟩ <;> nlinarith
+  · exact hb r hr
+
+/-- … and, when the total mass and the requested ratio are above `mjMINVAL`, the new total mass is the requested one -/
+theorem setTotalmass_total (newmass : ℝ) (bs : List (BodyMI ℝ))
+    (ht : mjMINVAL < (bs.map (·.mass)).sum) (hr : mjMINVAL * (bs.map (·.mass)).sum < newmass) :
+    ((setTotalmass newmass bs).map (·.mass)).sum = newmass := by
+  rw [setTotalmass_eq]
+  have hpos : 0 < (bs.map (·.mass)).sum := lt_trans mjMINVAL_pos ht
+  have hsc : totalmassScale newmass (bs.map (·.mass)).sum = newmass / (bs.map (·.mass)).sum := by
+    unfold totalmassScale
+    rw [if_neg (not_le.mpr ht), if_neg]
+    rw [not_le, lt_div_iff₀ hpos]
+    exact hr
+  rw [hsc]
+  simp only [List.map_map, Function.comp_def]
+  rw [List.sum_map_mul_right]
+  field_simp
+
+example : mjMINVAL < (([⟨2, ⟨0, 0, 0⟩, ⟨1, 0, 0, 0⟩, ⟨1, 1, 1⟩⟩] : List (BodyMI ℝ)).map (·.mass)).sum ∧
+    mjMINVAL * (([⟨2, ⟨0, 0, 0⟩, ⟨1, 0, 0, 0⟩, ⟨1, 1, 1⟩⟩] : List (BodyMI ℝ)).map (·.mass)).sum < (5 : ℝ) := by
+  simp only [List.map_cons, List.map_nil, List.sum_cons, List.sum_nil]; rw [mjMINVAL_eq]; norm_num
+
 end MjProof.C35
